@@ -420,3 +420,33 @@ def _run_regressions(self):
 
 
 Ctx.run_regressions = _run_regressions
+
+
+def _witness_still_fails(self, kf):
+    """Replays the witness script of a known-finding entry. It 'still fails' when the last transcript line equals one of its
+    `observed-last` lines, or when one of its `expect-last` lines (what a repaired library would answer) is not met.
+    Returns None when the witness is not a script (other checks know how to replay those)."""
+    w = kf.get("witness")
+    if not w:
+        return None
+    path = w if os.path.isabs(w) else os.path.join(VERIF, w)
+    if not os.path.exists(path):
+        return None
+    text = open(path).read()
+    if "--- script" not in text:
+        return None
+    head, script = text.split("--- script", 1)
+    lines, rc, err = self.script(script.lstrip("\n"))
+    lines = [l for l in lines if l.startswith(self.TRANSCRIPT_PREFIXES)]
+    obs = [l[len("observed-last "):].strip() for l in head.split("\n") if l.startswith("observed-last ")]
+    exp = [l[len("expect-last "):].strip() for l in head.split("\n") if l.startswith("expect-last ")]
+    if not lines:
+        return True
+    if obs and any(o == lines[-1].strip() for o in obs):
+        return True
+    if exp and any(e not in lines[-1] for e in exp):
+        return True
+    return False
+
+
+Ctx.witness_still_fails = _witness_still_fails
